@@ -125,6 +125,8 @@ int main(int argc, char** argv) {
       r.set("min", evalArith(c["fmin"].asStr(), den)).set("ws", evalArith(c["fws"].asStr(), den)).set("full", evalArith(c["ffull"].asStr(), den));
       r.set("dx", evalDeriv(c["fmin"].asStr(), "x", double(c["ddx"].asInt())));
       r.set("dy", evalDeriv(c["fmin"].asStr(), "y", double(c["ddy"].asInt())));
+    } else if (kind == "cond") {
+      r.set("min", evalArith(c["fmin"].asStr(), 1.)).set("full", evalArith(c["ffull"].asStr(), 1.));
     } else if (kind == "silent") {
       const auto o = evalArith(c["formula"].asStr(), double(c["den"].asInt()));
       r.set("got", o["got"]).set("q", o["q"]).set("tight", o["tight"]);
